@@ -13,10 +13,10 @@ def _cfg(d):
 CHECKS['C04'] = {
     'ready': True,
     'level': 'exploration',
-    'rule': '(A) histories: rapid draws a configuration (1-2 Directory volumes writable/read-only, BlobTrash on/off, TTL 5m/1h/2w, trash lifetime 0/1h and '
+    'rule': '(A) histories: rapid draws a configuration (1-2 Directory volumes, each read-write / Volumes.ReadOnly / read-only for this server only through AccessViaHosts[this server].ReadOnly (volume.ReadOnly false) / read-write through AccessViaHosts while another server is listed read-only, BlobTrash on/off, TTL 5m/1h/2w, trash lifetime 0/1h and '
             'changed between steps, BlobDeleteConcurrency 0/1/4, BlobTrashConcurrency 1/4, Serialize), an initial state per (volume, 3 hashes) '
             '[absent | present with age 0 / <TTL / >TTL outside a 10 s guard band | trashed with past/future deadlines | both] and 1-40 steps of '
-            'PUT, TOUCH, GET, PUT /trash (1-3 entries: timestamp = stored / stored+-1 ns / now / stale; mount "" / a uuid / unknown), DELETE, PUT /untrash, '
+            'PUT, TOUCH, GET, PUT /trash (1-3 entries: timestamp = stored / stored+-1 ns / now / stale; mount "" / a uuid (then mostly with the timestamp stored on that mount) / unknown), DELETE, PUT /untrash, '
             'EmptyTrash on every writable mount, direct Volume.Trash/Untrash/Touch/Put/EmptyTrash on one mount, age-a-replica, expire-a-trash-file, change lifetime; '
             'after each step (trash queue drained) every change on disk must be permitted by the property for that step. '
             'Non-trivial (A) = the history contains an acknowledged PUT/TOUCH of a hash followed by a trash attempt (DELETE, trash-list entry, direct Trash) on the same hash. '
@@ -27,10 +27,11 @@ CHECKS['C04'] = {
         'the clock is not injectable: ages/deadlines are generated >=10 s away from TTL/now boundaries and every verdict brackets the implementation\'s clock reading by readings before and after the step',
         'interleavings are controlled at filesystem-step granularity (statement boundaries found by the AST instrumenter); a goroutine that neither reaches a point nor finishes while a stack dump shows it in flock(2) or waiting for the Serialize mutex is treated as blocked',
         'all stored copies are intact (corruption is C01); one keepstore process per directory',
+        'direct Volume.Trash/Untrash/Touch/Put/EmptyTrash calls are not issued on a mount that is read-only only through AccessViaHosts: keepstore reaches those methods only via AllWritable / NextWritable / Lookup(uuid, needWrite) and such a volume has no read-only check of its own',
         'the DELETE response body (copies_deleted) is not compared',
     ],
     'units': [
-        unit('histories', 'keepstore_c04', '^TestVerifC04Histories$', _cfg({'shards': 12, 'checks': 80}), _cfg({'shards': 16, 'checks': 25000, 'timeout': 3000})),
+        unit('histories', 'keepstore_c04', '^TestVerifC04Histories$', _cfg({'shards': 12, 'checks': 80}), _cfg({'shards': 16, 'checks': 15000, 'timeout': 3000})),
         unit('interleave', 'keepstore_c04', '^TestVerifC04Interleave$', _cfg({'shards': 2, 'checks': 15}), _cfg({'shards': 8, 'checks': 1500, 'timeout': 3000})),
         unit('exhaustive', 'keepstore_c04', '^TestVerifC04Exhaustive$', _cfg({'shards': 2, 'env': {'VERIF_NSHARDS': 2}}), _cfg({'shards': 8, 'env': {'VERIF_NSHARDS': 8}, 'timeout': 1500}),
              rapid=False, shard_arg=True),
